@@ -2,8 +2,8 @@
 from harness._compute import search_with, sym_correspondence
 
 PROPERTY = "C02"
-LEAN_TARGETS = ['VectorModel.Refine.Planar', 'VectorModel.Refine.SpatialAcc', 'VectorModel.Refine.SpatialBin', 'VectorModel.Refine.SpatialRot', 'VectorModel.Refine.LorentzAcc', 'VectorModel.Refine.LorentzBin', 'VectorModel.Props.C10', 'VectorModel.Props.C09']
-THEOREM_FILES = ['VectorModel/Refine/Planar.lean', 'VectorModel/Refine/SpatialAcc.lean', 'VectorModel/Refine/SpatialBin.lean', 'VectorModel/Refine/SpatialRot.lean', 'VectorModel/Refine/LorentzAcc.lean', 'VectorModel/Refine/LorentzBin.lean', 'VectorModel/Props/C10.lean', 'VectorModel/Props/C09.lean']
+LEAN_TARGETS = ['VectorModel.Props.C02', 'VectorModel.Props.C10', 'VectorModel.Props.C09']
+THEOREM_FILES = ['VectorModel/Props/C02.lean', 'VectorModel/Props/C10.lean', 'VectorModel/Props/C09.lean']
 NOT_COVERED = ['the float64 clause (within a small multiple of rounding error): sampled by the numeric correspondences of C03, not proved']
 ALWAYS_SEARCH = True          # the law sweep on the real code is cheap: run it in every tier (exploration, not proof)
 search = search_with("c02")
